@@ -1628,6 +1628,13 @@ def packSpecialData(
         # that key (storing a nan when no data). This makes for a simple
         # approach that is somewhat digestible just looking at the db, and
         # should be quite efficient in the case where most objects have data for most keys.
+        if not all(isinstance(d, dict) for d in data):
+            # e.g. an empty string among empty dictionaries would iterate like a dictionary
+            # without keys and be read back as one
+            raise TypeError(
+                "Cannot write {} to the database: dictionaries mixed with other "
+                "values.".format(paramName)
+            )
         attrs["dict"] = True
         keys = sorted({k for d in data for k in d})
         data = np.array([[d.get(k, np.nan) for k in keys] for d in data])
